@@ -10,3 +10,4 @@ import PeptVerif.Props.C14Ext
 #print axioms C14Ext.elemental_total_with_floor
 #print axioms C14Ext.final_threshold_loss_bound
 #print axioms C14Ext.final_threshold_keeps_max
+#print axioms C14Ext.weighted_mean_raw_rounded
